@@ -49,6 +49,7 @@ pub fn gen(tier: Tier, rng: &mut Rng) -> Vec<Sx> {
             }
         }
     }
+    gen_mgr(tier, rng, &mut v);
     v
 }
 
@@ -62,7 +63,74 @@ fn mk(o: &Sx) -> StreamEvent {
 }
 fn attr(e: &StreamEvent) -> i64 { match e.data.get("a") { Some(Value::Integer(i)) => *i, _ => 0 } }
 
+/// StreamJoinManager: case = (9 (mop ...)); mop = (0 id l r w kind) register | (1 id) unregister | (2 stream id ts key attr) event | (3 stream z) watermark
+fn run_mgr(case: &Sx) -> (Sx, String) {
+    use rust_rule_engine::streaming::join_manager::StreamJoinManager;
+    use std::sync::{Arc, Mutex};
+    let keyf = || -> Box<dyn Fn(&StreamEvent) -> Option<String> + Send + Sync> {
+        Box::new(|e: &StreamEvent| match e.data.get("k") { Some(Value::Integer(i)) => Some(i.to_string()), _ => None }) };
+    let mut mgr = StreamJoinManager::new();
+    let sink: Arc<Mutex<Vec<(i64, (i64, i64))>>> = Arc::new(Mutex::new(vec![]));
+    let mut obs = vec![]; let mut total = 0;
+    for o in case.at(1).as_l() {
+        sink.lock().unwrap().clear();
+        match o.at(0).as_u() {
+            0 => {
+                let id = o.at(1).as_i() as i64;
+                let cond: Box<dyn Fn(&StreamEvent, &StreamEvent) -> bool + Send + Sync> = match o.at(5).as_u() {
+                    1 => Box::new(|l, r| attr(l) <= attr(r)), 2 => Box::new(|l, r| attr(l) != attr(r)), _ => Box::new(|_, _| true) };
+                let node = StreamJoinNode::new(format!("s{}", o.at(2).as_i()), format!("s{}", o.at(3).as_i()), JoinType::Inner,
+                    JoinStrategy::TimeWindow { duration: Duration::from_secs(o.at(4).as_u()) }, keyf(), keyf(), cond);
+                let s2 = sink.clone();
+                mgr.register_join(format!("j{}", id), node, Box::new(move |j| {
+                    let p = (j.left.as_ref().map(|e| e.id.parse::<i64>().unwrap()).unwrap_or(-1), j.right.as_ref().map(|e| e.id.parse::<i64>().unwrap()).unwrap_or(-1));
+                    s2.lock().unwrap().push((id, p)); }));
+            }
+            1 => mgr.unregister_join(&format!("j{}", o.at(1).as_i())),
+            2 => { let mut data = HashMap::new();
+                   if let Some(k) = o.at(4).as_l().first() { data.insert("k".to_string(), Value::Integer(k.as_i() as i64)); }
+                   data.insert("a".to_string(), Value::Integer(o.at(5).as_i() as i64));
+                   let mut e = StreamEvent::with_timestamp("t", data, &format!("s{}", o.at(1).as_i()), o.at(3).as_i() as u64);
+                   e.id = o.at(2).as_i().to_string();
+                   mgr.process_event(e); }
+            _ => mgr.update_watermark(&format!("s{}", o.at(1).as_i()), o.at(2).as_i() as i64),
+        }
+        // deliveries in order, consecutive deliveries of one join grouped (pairs sorted inside a group)
+        let got = sink.lock().unwrap().clone();
+        let mut groups: Vec<(i64, Vec<(i64, i64)>)> = vec![];
+        for (id, p) in got { match groups.last_mut() { Some(g) if g.0 == id => g.1.push(p), _ => groups.push((id, vec![p])) } }
+        for g in groups.iter_mut() { g.1.sort(); total += g.1.len(); }
+        obs.push(Sx::l(groups.iter().map(|g| Sx::l(vec![Sx::i(g.0), Sx::l(g.1.iter().map(|p| Sx::l(vec![Sx::i(p.0), Sx::i(p.1)])).collect())])).collect()));
+    }
+    (Sx::l(obs), if total == 0 { "manager trivial".into() } else { format!("manager pairs{}", total.min(4)) })
+}
+
+/// manager histories: 1..3 joins over 2..4 streams (two different streams each; a stream may feed several joins, on either side), then traffic on
+/// all streams incl. one nobody consumes, watermarks, sometimes an unregistration and a late registration in the middle
+fn gen_mgr(tier: Tier, rng: &mut Rng, v: &mut Vec<Sx>) {
+    let n = if tier == Tier::Thorough { 20000 } else { 2500 };
+    for _ in 0..n {
+        let ns = rng.range(2, 4) as i64; let nj = rng.range(1, 3) as i64;
+        let mut ops = vec![]; let mut live: Vec<i64> = vec![];
+        let reg = |rng: &mut Rng, id: i64| -> Sx { let l = rng.below(ns as u64) as i64; let mut r = rng.below(ns as u64) as i64; if r == l { r = (l + 1) % ns; }
+            Sx::l(vec![Sx::n(0), Sx::i(id), Sx::i(l), Sx::i(r), Sx::n(*rng.pick(&[0u64, 1, 2, 3, 5])), Sx::n(rng.below(3))]) };
+        for id in 0..nj { ops.push(reg(rng, id)); live.push(id); }
+        let mut next = nj; let mut eid = 0i64;
+        for _ in 0..rng.range(3, 12) {
+            match rng.below(12) {
+                0 if !live.is_empty() => { let i = rng.below(live.len() as u64) as usize; ops.push(Sx::l(vec![Sx::n(1), Sx::i(live.remove(i))])); }
+                1 => { ops.push(reg(rng, next)); live.push(next); next += 1; }
+                2 | 3 => { let z = rng.below(14) as i64; ops.push(Sx::l(vec![Sx::n(3), Sx::i(rng.below(ns as u64 + 1) as i64), Sx::i(z)])); }
+                _ => { eid += 1; let key = if rng.chance(1, 10) { Sx::l(vec![]) } else { Sx::l(vec![Sx::i(rng.below(2) as i64)]) };
+                       ops.push(Sx::l(vec![Sx::n(2), Sx::i(rng.below(ns as u64 + 1) as i64), Sx::i(eid), Sx::i(rng.below(8) as i64), key, Sx::i(rng.below(3) as i64)])); }
+            }
+        }
+        v.push(Sx::l(vec![Sx::n(9), Sx::l(ops)]));
+    }
+}
+
 pub fn run(case: &Sx) -> (Sx, String) {
+    if case.at(0).as_u() == 9 { return run_mgr(case); }
     let kind = case.at(0).as_u(); let w = case.at(1).as_u();
     let keyf = || -> Box<dyn Fn(&StreamEvent) -> Option<String> + Send + Sync> {
         Box::new(|e: &StreamEvent| match e.data.get("k") { Some(Value::Integer(i)) => Some(i.to_string()), _ => None }) };
